@@ -1,0 +1,13 @@
+//go:build verif
+
+package alphabet
+
+import "time"
+
+// VerifDrain blocks until every task submitted to the processor's worker pool has finished
+// (the pool is released and rebooted). Used by the external conformance harness (/verif, family
+// irproc) to observe the chain calls of one event deterministically.
+func (ap *Processor) VerifDrain() {
+	_ = ap.pool.ReleaseTimeout(time.Minute)
+	ap.pool.Reboot()
+}
